@@ -119,4 +119,14 @@ CLAIMS.update({
               'configurations with the extracted wiring model.'),
         note=COMMON_NOTE + ' That AES-GCM is an authenticated cipher hiding its plaintext, and that crypto/rand nonces do not repeat, are cryptographic assumptions (hypotheses of the theorems): partial in that sense.'),
 })
+CLAIMS.update({
+    'C12': dict(
+        text=('Theorems C12_any_spelling (for every Cache-Control field given as an abstract directive list and EVERY spelling of it — letter case of names, none/token/quoted-string '
+              'arguments with any quoted-pairs, optional whitespace, empty list elements, any split over field lines — parse_cc yields for each name exactly the argument of the last '
+              'directive of that name), C12_order, C12_extensions, C12_same_decisions (two readings with the same meaning give identical storability, freshness record, hit decision, '
+              'qualified no-cache fields, stale-if-error decision, only-if-cached / no-store flags, for every entry, response and instant), C12_decisions_are_the_code, C12_large_delta '
+              '(a delta-seconds of any number of digits is min(2^63-1 ns, value): never wrapped). The run drives respelled histories on the real transport against the model and the '
+              'monitors, and runs every respelled history again in canonical spelling, comparing the two runs of the implementation.'),
+        note=COMMON_NOTE + ' The abstract syntax covers RFC 9111 §5.2 fields whose names are tokens and whose arguments are tokens or quoted-strings; field values that are not well-formed lists are outside the theorem (their handling is compared by the run only).'),
+})
 NOT_YET = {}
